@@ -849,6 +849,21 @@ func (i *impl) oracle(h *lp.H) {
 			h.Violate(fmt.Sprintf("broker received points for data id %d that were never written", tok))
 		}
 	}
+	// hooks are dispatched asynchronously (eventDispatcher): on a loaded machine the last ones can trail Close's return by a
+	// few milliseconds. Wait for them (and count that it was necessary); what is judged is that each chunk is announced once.
+	trailing := false
+	for t := time.Now(); time.Since(t) < 2*time.Second; time.Sleep(200 * time.Microsecond) {
+		i.mu.Lock()
+		k := len(i.sendHook)
+		i.mu.Unlock()
+		if k >= n {
+			break
+		}
+		trailing = time.Since(t) > 2*time.Millisecond
+	}
+	if trailing {
+		h.Count("hooks-trailing-close")
+	}
 	i.mu.Lock()
 	defer i.mu.Unlock()
 	if len(i.sendHook) != n {
